@@ -78,6 +78,12 @@ CHECKS = {
         note="Partial: the Lean model covers the transaction/undo-log state machine; the fault enumeration over real operations is an exhaustive-per-boundary correspondence, not a theorem about SQLite or POSIX. Trusted: Lean kernel; harness and injector; SQLite transaction/SAVEPOINT semantics. Faults that the code swallows by design (ignore_errors=True in Datastore.trash/emptyTrash), after which the removal returns normally, are outside the property's 'removal that fails' clause and are reported as observations.",
         design="DESIGN.md §5 C07",
     ),
+    "C09": dict(
+        technique="Lean 4 proof (invariants of the records / location / trash tables and the datastore root preserved by every operation, by induction over histories; safety, precision and no-leak theorems for emptyTrash with the bridge's preserved set and the fragment recount; shape theorem for normpath and containment of every accepted templated path) + history correspondence on a real Butler inside a sentinel area + hostile-name correspondence of FileTemplate.format / Location + reference-set oracle",
+        text="emptyTrash_keeps_referenced (an artifact that a still-stored dataset refers to is never removed, for plain shared files, zip members and direct ingests mixed in one trash), emptyTrash_only_removes_trashed, emptyTrash_removes_unreferenced, ext_untouched, inv_store / inv_trash / inv_emptyTrash / inv_history and stored_artifacts_present (after every history every stored dataset has its owned artifacts on disk) are proved in Lean 4 for all states and histories; Path.normComps_shape (normpath yields '..'* followed by ordinary names), Path.accepted_is_contained (a path the datastore accepts has no '..', '.' or empty component, whatever the run, data-ID and dataset-type strings) and Path.refused_escapes are proved for all strings. The models are compared with a real Butler on seeded histories of put / ingest(copy, move, direct, shared) / ingest_zip / prune(unstore, purge) / Datastore.trash / emptyTrash / removeRuns with a recursive content listing of the root and of the sentinel area after every step and a get of every stored dataset, and on hostile run names and data-ID strings through put, ingest, get and prune.",
+        note="Trusted: Lean kernel; harness; POSIX path resolution (a relative path without '..' components stays below the directory it is joined to; no symlinks); lsst.resources URI parsing is exercised but not modelled — names containing '%' are decided by the filesystem oracle only. Disassembled composites are not produced by any storage class usable in this sandbox; the model covers them through multiple records per dataset id.",
+        design="DESIGN.md §5 C09",
+    ),
     "C10": dict(
         technique="Lean 4 proof (exact state equations for purge over the registry+datastore model, corollaries of the C02 invariants) + history correspondence on a real Butler with existence probes of every dataset + set oracle",
         text="purge_exact (purge is always accepted and leaves exactly the old tables / datastore records / artifacts minus the targets), purge_members (membership of every collection = old minus targets), purge_others_untouched, purge_targets_gone, orphan_refused (the registry refuses to forget a dataset a datastore still holds, changing nothing), purge_inv, exists_flags_consistent, extDelete_flags are proved in Lean 4. The model is compared with a real Butler on seeded histories mixing puts, tagging, certification, chaining, the three prune modes, registry.removeDatasets, removeRuns and external deletion of artifacts; after every step exists(full_check) / _exists_many / stored / query membership / directory listing of every dataset ever created are compared with the model and with the harness's own sets.",
